@@ -42,7 +42,7 @@ def body(E, cfg):
 
 def units(prop):
     return [Unit(name="OpticalMap.trim", body=body,
-                 configs=lambda tier: [{"n": k} for k in range(0, (6 if tier == "quick" else 9))],
+                 configs=lambda tier: [{"n": k} for k in range(0, (6 if tier == "quick" else 13))],
                  functions=["src.correlation.optical_map:OpticalMap.trim"],
                  bounds="maps of 0..5 (quick) / 0..8 (thorough) labels in non-decreasing order, symbolic real coordinates and length",
                  nontrivial_rule="at least two labels",
@@ -50,7 +50,7 @@ def units(prop):
                  outside=["the CMAP reader (pandas): not decided by this check", "more than 8 labels"]),
             Unit(name="cmap-reader-on-witnesses", body=body_reader, witness=False,
                  configs=lambda tier: [dict(n1=a, n2=b) for a, b in ((1, 0), (2, 1), (3, 2))] + [dict(n1=3, n2=2, coincident=True)] +
-                                      ([dict(n1=4, n2=3)] if tier != "quick" else []),
+                                      ([dict(n1=4, n2=3), dict(n1=6, n2=5), dict(n1=5, n2=1, coincident=True)] if tier != "quick" else []),
                  functions=["src.parsers.cmap_reader:CmapReader", "src.parsers.bionano_file_reader:BionanoFileReader.readFile"],
                  bounds="NOT solver-decided: one witness per path (three molecules: ids 5, 2 and a label-less 9) rendered as CMAP text in canonical, "
                         "reversed and interleaved row order, with and without an extra column, read with and without id filters by the real reader",
